@@ -168,7 +168,7 @@ C18_Counters(C, A, R) ==
       /\ R.nfev = A.nOde
       /\ R.njev = A.nJac
       /\ R.nstep >= R.naccpt
-      /\ (IsLow(R) => R.naccpt = A.nCb - 1)
+      /\ (IsLow(R) /\ ~C.nocb => R.naccpt = A.nCb - 1)                       \* (nocb: the solver was called without a callback)
       /\ (C.x0.b = C.xend.b => R.nfev = 0 /\ R.njev = 0 /\ R.naccpt = 0 /\ R.nstep = 0 /\ R.nrejct = 0 /\ R.nlu = 0)
       /\ (Len(R.oded) = A.nOde \/ Len(R.oded) = 20000)                          \* the digest stream is the event stream
 \* naccpt = number of reported intervals when no output filtering is requested
